@@ -334,7 +334,7 @@ func checkC08(c *Check) {
 						sawAllow = true
 					default:
 						dc, _, isC := asCall(v)
-						if isC && len(dc.Common().Args) >= 1 {
+						if isC && len(dc.Common().Args) >= 1 && isServerDenyCall(P, dc) {
 							if k, isK := constInt(dc.Common().Args[0]); isK && k == 7 {
 								sawDeny = true
 								continue
@@ -423,25 +423,111 @@ func checkC08(c *Check) {
 	}
 }
 
-// denyTemplateOK: the server's deny closure stores its code parameter into Status.Code.
-func denyTemplateOK(P *Program) bool {
+// serverDenyFns: the deny templates of the server package — functions (declared or closures) that store
+// a code-typed parameter into Status.Code of the response they return and never give it an OkResponse.
+func serverDenyFns(P *Program) map[*ssa.Function]bool {
+	out := map[*ssa.Function]bool{}
 	for _, fn := range P.Funcs {
-		if pkgPathOf(fn) != pkgServer || fn.Parent() == nil && fn.Name() != "init" {
+		if pkgPathOf(fn) != pkgServer {
 			continue
 		}
+		if fn.Signature.Results().Len() != 1 || typeID(fn.Signature.Results().At(0).Type()) != idCheckResponse {
+			continue
+		}
+		codeFromParam, denied, ok := false, false, false
 		for _, b := range fn.Blocks {
 			for _, ins := range b.Instrs {
-				if st, ok := ins.(*ssa.Store); ok {
-					if fa, isF := st.Addr.(*ssa.FieldAddr); isF && fieldAddrID(fa) == pkgStatus+".Status.Code" {
-						if p, isP := stripConv(st.Val).(*ssa.Parameter); isP && isCodeType(p.Type()) {
-							return true
-						}
+				st, isSt := ins.(*ssa.Store)
+				if !isSt {
+					continue
+				}
+				fa, isF := st.Addr.(*ssa.FieldAddr)
+				if !isF {
+					continue
+				}
+				switch fieldAddrID(fa) {
+				case pkgStatus + ".Status.Code":
+					if p, isP := stripConv(st.Val).(*ssa.Parameter); isP && isCodeType(p.Type()) {
+						codeFromParam = true
+					}
+				case idCheckResponse + ".HttpResponse":
+					switch typeID(stripConv(st.Val).Type()) {
+					case pkgEnvoyAuth + ".CheckResponse_DeniedResponse":
+						denied = true
+					case pkgEnvoyAuth + ".CheckResponse_OkResponse":
+						ok = true
+					}
+				}
+			}
+		}
+		_ = denied
+		if codeFromParam && !ok {
+			out[fn] = true
+		}
+	}
+	return out
+}
+
+// isServerDenyCall: call invokes a deny template, statically or through a package variable of the
+// server package that only ever holds deny templates.
+func isServerDenyCall(P *Program, call ssa.CallInstruction) bool {
+	tmpl := serverDenyFns(P)
+	if callee := call.Common().StaticCallee(); callee != nil {
+		return tmpl[callee]
+	}
+	u, ok := call.Common().Value.(*ssa.UnOp)
+	if !ok || u.Op != token.MUL {
+		return false
+	}
+	g, ok := u.X.(*ssa.Global)
+	if !ok || g.Pkg == nil || g.Pkg.Pkg.Path() != pkgServer {
+		return false
+	}
+	n := 0
+	for _, fn := range P.Funcs {
+		for _, b := range fn.Blocks {
+			for _, ins := range b.Instrs {
+				if st, isSt := ins.(*ssa.Store); isSt && st.Addr == ssa.Value(g) {
+					n++
+					var target *ssa.Function
+					switch v := stripConv(st.Val).(type) {
+					case *ssa.MakeClosure:
+						target, _ = v.Fn.(*ssa.Function)
+					case *ssa.Function:
+						target = v
+					}
+					if target == nil || !tmpl[target] {
+						return false
 					}
 				}
 			}
 		}
 	}
-	return false
+	if init := P.SSA[pkgServer].Func("init"); init != nil {
+		for _, b := range init.Blocks {
+			for _, ins := range b.Instrs {
+				if st, isSt := ins.(*ssa.Store); isSt && st.Addr == ssa.Value(g) {
+					n++
+					var target *ssa.Function
+					switch v := stripConv(st.Val).(type) {
+					case *ssa.MakeClosure:
+						target, _ = v.Fn.(*ssa.Function)
+					case *ssa.Function:
+						target = v
+					}
+					if target == nil || !tmpl[target] {
+						return false
+					}
+				}
+			}
+		}
+	}
+	return n > 0
+}
+
+// denyTemplateOK: the server has a deny template that stores its code parameter into Status.Code.
+func denyTemplateOK(P *Program) bool {
+	return len(serverDenyFns(P)) > 0
 }
 
 
